@@ -2,18 +2,22 @@ import SqlgrepModel.Spec.Agg
 import SqlgrepModel.Spec.Variance
 import SqlgrepModel.Lemmas.FloatArith
 /-
-The textbook population variance (`Spec/Variance.lean`, exact rationals) against the one-pass formula the model and the
-code evaluate (`Spec.Agg.populationVariance` = `Model/Engine.lean` `stddevCalc`):
+The textbook population variance (`Spec/Variance.lean`, exact rationals) against what the model and the code compute
+(`Spec/Agg.lean` `intVariance` / `realVariance` = `Model/Engine.lean` `stddevCalcInt` / `stddevCalc`; finding D72, repaired):
 
-  (i)   over ℚ the two are EQUAL: `(Σx² − (Σx)²/n)/n = (1/n)·Σ(x − μ)²` (`popVariance_eq_onepass`), the variance is never
-        negative (`popVariance_nonneg`) and that of a constant list is 0 (`popVariance_const`); for INT inputs
-        `n²·σ² = n·Σx² − (Σx)²` (`popVariance_ints`);
-  (ii)  the value of a finite REAL as a rational (`F64.toRat`), the decidable predicate "no step of the one-pass formula
-        rounds" (`onePassExact`, `sqrtExact`) and: under it the model's REAL is EXACTLY the textbook variance
-        (`onePass_exact_value`);
-  (iii) each step on its own is correctly rounded (the nearest REAL to the exact result OF ITS OPERANDS:
-        `onePass_steps_nearest`) — which does NOT make the final REAL the nearest to the exact variance: the subtraction
-        `Σx² − (Σx)²/n` cancels, and what remains can be all rounding error (witnesses in `Props/C04Variance.lean`).
+  (i)   the algebra over ℚ: the one-pass formula `(Σx² − (Σx)²/n)/n` equals `(1/n)·Σ(x − μ)²` (`popVariance_eq_onepass`), a
+        variance is never negative (`popVariance_nonneg`), that of a constant list is 0 (`popVariance_const`), and for INT
+        inputs `σ² = (n·Σx² − (Σx)²) / n²` (`popVariance_ints`) with a non-negative integer numerator (`varNumer_nonneg`);
+  (ii)  INT arguments: the cell is `fl(fl(N) / fl(n²))` with `N = n·Σx² − (Σx)²` formed EXACTLY — `F64.ofInt` of a
+        non-negative integer is the correctly rounded magnitude (`ofInt_nat`, `ofInt_nat_nearest`, `ofInt_nat_tie_even`),
+        the quotient is `magBits (umag fl(N)) (umag fl(n²))` (`intVariance_eq`): never NaN, never negative
+        (`intVariance_sign`), correctly rounded (`intVariance_nearest`), `0.0` when `N = 0` (`intVariance_zero`), and EXACT
+        when `N`, `n²` fit 53 bits and the quotient is a REAL (`intVariance_exact`);
+  (iii) REAL arguments: the one-pass formula step by step in REAL arithmetic, then negative results are replaced by `0.0`
+        (`clampNegative_*`); the value of a finite REAL as a rational (`F64.toRat`), the decidable predicate "no step of the
+        formula rounds" (`onePassExact`, `onePassExactReals`) and: under it the REAL shown is EXACTLY the textbook variance
+        (`onePass_exact_value_reals`); each step on its own is correctly rounded (`onePass_steps_nearest`) — which does NOT
+        make the result the REAL nearest to the exact variance: the subtraction cancels (that is why the clamp is there).
 -/
 namespace Sqlgrep
 open Spec.Variance
@@ -127,6 +131,48 @@ theorem foldl_add_eq_sum (is : List Int) (acc : Int) : is.foldl (· + ·) acc = 
 theorem intSum_eq_sum (is : List Int) : Spec.Agg.intSum is = is.sum := by
   unfold Spec.Agg.intSum; rw [foldl_add_eq_sum]; omega
 
+/-- the numerator `n·Σx² − (Σx)²` is never negative (it is `n²` times a variance) -/
+theorem varNumer_nonneg (is : List Int) : 0 ≤ varNumer is := by
+  by_cases h : is = []
+  · subst h; decide
+  · have hv := popVariance_nonneg (is.map (fun (i : Int) => (i : Rat)))
+    rw [popVariance_ints is h] at hv
+    have hn := length_pos h
+    have hnn : (0 : Rat) < (is.length : Rat) * is.length := Rat.mul_pos hn hn
+    have hne : ((is.length : Rat) * is.length) ≠ 0 := by grind
+    have e : (varNumer is : Rat) = (varNumer is : Rat) / ((is.length : Rat) * is.length) * ((is.length : Rat) * is.length) := by
+      grind
+    have : (0 : Rat) ≤ (varNumer is : Rat) := by rw [e]; exact Rat.mul_nonneg hv (Rat.le_of_lt hnn)
+    exact_mod_cast this
+
+/-- … and it is 0 for equal values -/
+theorem varNumer_replicate (n : Nat) (c : Int) : varNumer (List.replicate n c) = 0 := by
+  cases n with
+  | zero => simp [varNumer]
+  | succ n =>
+    have hne : List.replicate (n + 1) c ≠ [] := by simp
+    have hv := popVariance_ints (List.replicate (n + 1) c) hne
+    have hm : (List.replicate (n + 1) c).map (fun (i : Int) => (i : Rat)) = List.replicate (n + 1) (c : Rat) := by simp
+    rw [hm, popVariance_const] at hv
+    have hn := length_ne_zero hne
+    have : (varNumer (List.replicate (n + 1) c) : Rat) = 0 := by
+      have hne2 : ((List.replicate (n + 1) c).length : Rat) * (List.replicate (n + 1) c).length ≠ 0 := by grind
+      grind
+    exact_mod_cast this
+
+/-- a sum of squares that are `i64`s is at most `n · 2^63` -/
+theorem sum_le_of_all_inI64 (xs : List Int) (h : xs.all inI64 = true) : xs.sum ≤ (xs.length : Int) * 9223372036854775808 := by
+  induction xs with
+  | nil => simp
+  | cons x xs ih =>
+    simp only [List.all_cons, Bool.and_eq_true] at h
+    have hx : x ≤ 9223372036854775808 := by
+      have := h.1; unfold inI64 i64Max at this; simp at this; omega
+    have := ih h.2
+    simp only [List.sum_cons, List.length_cons]
+    push_cast
+    omega
+
 end Variance
 
 /-! ### (ii) the exact value of a REAL, and "no step rounds" -/
@@ -190,41 +236,6 @@ theorem onePass_exact_formula {count : Int} {s q : Nat} (h : onePassExact count 
   refine ⟨hv.1, ?_⟩
   rw [hv.2, he.2, hd.2, hp.2, hn.2]
 
-/-- INT inputs: `Σx`, `Σx²` converted to REAL without rounding, and no step of the formula rounds -/
-def onePassExactInts (is : List Int) : Bool :=
-  decide (IsExactly (F64.ofInt (intSum is)) (intSum is)) &&
-  decide (IsExactly (F64.ofInt (intSum (is.map (fun x => x * x)))) (intSum (is.map (fun x => x * x)))) &&
-  onePassExact is.length (F64.ofInt (intSum is)) (F64.ofInt (intSum (is.map (fun x => x * x))))
-
-/-- **(ii) where nothing rounds, the model's VARIANCE is the textbook variance, exactly** (INT inputs) -/
-theorem onePass_exact_value (is : List Int) (hne : is ≠ []) (h : onePassExactInts is = true) :
-    IsExactly (populationVariance is.length (F64.ofInt (intSum is)) (F64.ofInt (intSum (is.map (fun x => x * x)))))
-      (popVariance (is.map (fun (i : Int) => (i : Rat)))) := by
-  unfold onePassExactInts at h
-  simp only [Bool.and_eq_true, decide_eq_true_eq] at h
-  obtain ⟨⟨hs, hq⟩, hx⟩ := h
-  obtain ⟨hf, hval⟩ := onePass_exact_formula hx
-  refine ⟨hf, ?_⟩
-  have hne' : is.map (fun (i : Int) => (i : Rat)) ≠ [] := by simpa using hne
-  rw [hval, hs.2, hq.2, popVariance_eq_onepass _ hne', sum_map_sq_intCast, sum_map_intCast, intSum_eq_sum, intSum_eq_sum]
-  simp only [List.length_map]
-  have : ((is.length : Int) : Rat) = (is.length : Rat) := by push_cast; rfl
-  rw [this]
-  grind
-
-/-- … and where the square root does not round either, the model's STDDEV is the standard deviation, exactly -/
-theorem onePass_exact_stddev (is : List Int) (hne : is ≠ []) (h : onePassExactInts is = true)
-    (hr : sqrtExact (populationVariance is.length (F64.ofInt (intSum is)) (F64.ofInt (intSum (is.map (fun x => x * x))))) = true) :
-    isFinite (spread is.length false (F64.ofInt (intSum is)) (F64.ofInt (intSum (is.map (fun x => x * x))))) = true ∧
-    IsStdDev (is.map (fun (i : Int) => (i : Rat)))
-      (toRat (spread is.length false (F64.ofInt (intSum is)) (F64.ofInt (intSum (is.map (fun x => x * x)))))) := by
-  have hv := (onePass_exact_value is hne h).2
-  unfold sqrtExact at hr
-  simp only [Bool.and_eq_true, decide_eq_true_eq] at hr
-  obtain ⟨⟨hf, h0⟩, hsq⟩ := hr
-  simp only [spread, Bool.false_eq_true, if_false]
-  exact ⟨hf, h0, by rw [hsq, hv]⟩
-
 /-- REAL inputs: the running sums `Σx`, `Σ(x·x)` (each square and each addition a REAL operation) are exact, and no step of
 the formula rounds -/
 def onePassExactReals (rs : List Nat) : Bool :=
@@ -249,6 +260,283 @@ theorem onePass_exact_value_reals (rs : List Nat) (hne : rs ≠ []) (h : onePass
   have : ((rs.length : Int) : Rat) = (rs.length : Rat) := by push_cast; rfl
   rw [this]
   grind
+
+/-! ### (ii) INT arguments: two correctly rounded conversions and one correctly rounded division of exact integers -/
+
+/-- `i as f64` of a non-negative integer is the correctly rounded magnitude of `m / 1` -/
+theorem ofInt_nat (m : Nat) : F64.ofInt (m : Int) = DecFloat.magBits m 1 := by
+  show DecFloat.decToF64 (decide ((m : Int) < 0)) (m : Int).natAbs 0 = _
+  have h1 : decide ((m : Int) < 0) = false := by simp
+  rw [h1, Int.natAbs_natCast, DecFloat.decToF64_eq]
+  simp [DecFloat.numOf, DecFloat.denOf]
+
+/-- integers below `2^1023` do not overflow -/
+theorem ofInt_nat_lt_inf {m : Nat} (h : m < 2 ^ 1023) : DecFloat.magBits m 1 < DecFloat.infBits := by
+  have hle := DecFloat.magBits_le_inf m 1
+  have hne : DecFloat.magBits m 1 ≠ DecFloat.infBits := by
+    intro he
+    have := (DecFloat.magBits_overflow_iff m 1 (by decide)).1 he
+    have hb : 2 ^ 1023 * DecFloat.unitScale ≤ (2 ^ 54 - 1) * DecFloat.topHalfUlp * 1 := by decide +kernel
+    have hm : m * DecFloat.unitScale < 2 ^ 1023 * DecFloat.unitScale :=
+      (Nat.mul_lt_mul_right DecFloat.unitScale_pos).2 h
+    omega
+  omega
+
+/-- **the conversion is correctly rounded**: for `0 ≤ m < 2^1023` the REAL `m as f64` is finite, not negative, and no REAL is
+nearer to `m` (distances in units of 2^-1074) -/
+theorem ofInt_nat_nearest {m : Nat} (h : m < 2 ^ 1023) (y : Nat) :
+    isFinite (F64.ofInt (m : Int)) = true ∧ signBit (F64.ofInt (m : Int)) = false ∧ F64.ofInt (m : Int) < 2 ^ 63 ∧
+    adist (m * unitScale) (umag (F64.ofInt (m : Int))) ≤ adist (m * unitScale) (umag y) := by
+  rw [ofInt_nat]
+  have hlt := ofInt_nat_lt_inf h
+  have f := DecFloat.magBits_finite hlt
+  have n := DecFloat.magBits_nearest m 1 y (by decide) hlt
+  simp only [Nat.mul_one] at n
+  refine ⟨f.2.2.1, f.2.2.2, ?_, n⟩
+  unfold DecFloat.infBits at hlt; omega
+
+/-- … ties to even: a REAL of another magnitude exactly as near means the last mantissa bit of the result is 0 -/
+theorem ofInt_nat_tie_even {m : Nat} (h : m < 2 ^ 1023) (y : Nat) (hne : mag y ≠ F64.ofInt (m : Int))
+    (heq : adist (m * unitScale) (umag y) = adist (m * unitScale) (umag (F64.ofInt (m : Int)))) :
+    F64.ofInt (m : Int) % 2 = 0 := by
+  rw [ofInt_nat] at hne heq ⊢
+  have heq' : adist (m * DecFloat.unitScale) (umag y) = adist (m * DecFloat.unitScale) (umag (DecFloat.magBits m 1)) := heq
+  exact DecFloat.magBits_tie_even m 1 y (by decide) (ofInt_nat_lt_inf h) hne (by simpa using heq')
+
+/-- a positive integer does not convert to a zero -/
+theorem ofInt_nat_mag_ne_zero {m : Nat} (hpos : 0 < m) (h : m < 2 ^ 1023) : mag (F64.ofInt (m : Int)) ≠ 0 := by
+  intro hz
+  have hu : umag (F64.ofInt (m : Int)) = 0 := (umag_eq_zero_iff _).2 hz
+  have one := DecFloat.intBits_spec 1 (by decide)
+  have n := (ofInt_nat_nearest h (DecFloat.intBits 1)).2.2.2
+  have hone : umag (DecFloat.intBits 1) = 1 * unitScale := by
+    have := one.2.2; unfold F64.unitScale; exact this
+  rw [hu, hone] at n
+  unfold adist at n
+  have hU := unitScale_pos
+  generalize unitScale = U at *
+  have h1 : 1 * U = U := Nat.one_mul U
+  have h2 : U ≤ m * U := Nat.le_mul_of_pos_left U hpos
+  have h3 : m * U - U < m * U := by omega
+  simp only [Nat.sub_zero, Nat.zero_sub, Nat.add_zero, h1] at n
+  omega
+
+/-- integers that fit 53 bits convert exactly -/
+theorem ofInt_nat_exact {m : Nat} (h : m < 2 ^ 53) : umag (F64.ofInt (m : Int)) = m * unitScale := by
+  show umag (DecFloat.decToF64 (decide ((m : Int) < 0)) (m : Int).natAbs 0) = _
+  have h1 : decide ((m : Int) < 0) = false := by simp
+  rw [h1, Int.natAbs_natCast]
+  exact (DecFloat.decToF64_int m h).2
+
+/-- **the INT variance as one rounding of a quotient of two rounded integers.** With `N = n·Σx² − (Σx)² ≥ 0` and `D = n² > 0`
+(both below `2^1023`; in the code both are below `2^126`): `intVariance = magBits (umag fl(N)) (umag fl(D))`, the correctly
+rounded quotient of the two converted integers -/
+theorem intVariance_eq {n S Q : Int} {N D : Nat} (hN : n * Q - S * S = (N : Int)) (hD : n * n = (D : Int))
+    (hNb : N < 2 ^ 1023) (hDpos : 0 < D) (hDb : D < 2 ^ 1023) :
+    intVariance n S Q = DecFloat.magBits (umag (F64.ofInt (N : Int))) (umag (F64.ofInt (D : Int))) := by
+  unfold intVariance
+  rw [hN, hD]
+  obtain ⟨fa, sa, _, _⟩ := ofInt_nat_nearest hNb 0
+  obtain ⟨fb, sb, _, _⟩ := ofInt_nat_nearest hDb 0
+  show divX _ _ = _
+  rw [divX_finite _ _ fa fb (ofInt_nat_mag_ne_zero hDpos hDb), sa, sb]
+  simp [withSign]
+
+/-- **never NaN, never negative** -/
+theorem intVariance_sign {n S Q : Int} {N D : Nat} (hN : n * Q - S * S = (N : Int)) (hD : n * n = (D : Int))
+    (hNb : N < 2 ^ 1023) (hDpos : 0 < D) (hDb : D < 2 ^ 1023) :
+    isNaN (intVariance n S Q) = false ∧ signBit (intVariance n S Q) = false := by
+  rw [intVariance_eq hN hD hNb hDpos hDb]
+  have hle := DecFloat.magBits_le_inf (umag (F64.ofInt (N : Int))) (umag (F64.ofInt (D : Int)))
+  generalize DecFloat.magBits (umag (F64.ofInt (N : Int))) (umag (F64.ofInt (D : Int))) = r at hle
+  unfold DecFloat.infBits at hle
+  unfold isNaN signBit mag
+  constructor
+  · simp only [decide_eq_false_iff_not]; omega
+  · simp; omega
+
+/-- **correctly rounded division**: when finite, no REAL is nearer to `fl(N) / fl(D)` than the cell -/
+theorem intVariance_nearest {n S Q : Int} {N D : Nat} (hN : n * Q - S * S = (N : Int)) (hD : n * n = (D : Int))
+    (hNb : N < 2 ^ 1023) (hDpos : 0 < D) (hDb : D < 2 ^ 1023) (hf : isFinite (intVariance n S Q) = true) (y : Nat) :
+    adist (umag (F64.ofInt (N : Int)) * unitScale) (umag (intVariance n S Q) * umag (F64.ofInt (D : Int))) ≤
+      adist (umag (F64.ofInt (N : Int)) * unitScale) (umag y * umag (F64.ofInt (D : Int))) := by
+  obtain ⟨fa, _, _, _⟩ := ofInt_nat_nearest hNb 0
+  obtain ⟨fb, _, _, _⟩ := ofInt_nat_nearest hDb 0
+  have hd : intVariance n S Q = divX (F64.ofInt (N : Int)) (F64.ofInt (D : Int)) := by
+    unfold intVariance; rw [hN, hD]; rfl
+  rw [hd] at hf ⊢
+  exact divX_nearest _ _ fa fb (ofInt_nat_mag_ne_zero hDpos hDb) hf y
+
+/-- **one rounding only when numerator and denominator fit 53 bits**: both conversions are exact, so the (finite) cell is a REAL
+nearest to the exact rational `N / D` itself (cross-multiplied by `D`, in units of 2^-1074) -/
+theorem intVariance_nearest_small {n S Q : Int} {N D : Nat} (hN : n * Q - S * S = (N : Int)) (hD : n * n = (D : Int))
+    (hNb : N < 2 ^ 53) (hDpos : 0 < D) (hDb : D < 2 ^ 53) (hf : isFinite (intVariance n S Q) = true) (y : Nat) :
+    adist (N * unitScale) (umag (intVariance n S Q) * D) ≤ adist (N * unitScale) (umag y * D) := by
+  have h := intVariance_nearest hN hD (by omega) hDpos (by omega) hf y
+  rw [ofInt_nat_exact hNb, ofInt_nat_exact hDb] at h
+  have hU := unitScale_pos
+  generalize unitScale = U at *
+  have e1 : umag (intVariance n S Q) * (D * U) = umag (intVariance n S Q) * D * U := (Nat.mul_assoc _ _ _).symm
+  have e2 : umag y * (D * U) = umag y * D * U := (Nat.mul_assoc _ _ _).symm
+  rw [e1, e2, adist_mul, adist_mul] at h
+  exact Nat.le_of_mul_le_mul_right h hU
+
+/-- **`0.0` when the numerator is 0** (all values equal) -/
+theorem intVariance_zero {n S Q : Int} {D : Nat} (hN : n * Q - S * S = 0) (hD : n * n = (D : Int))
+    (hDpos : 0 < D) (hDb : D < 2 ^ 1023) : intVariance n S Q = F64.zero := by
+  rw [intVariance_eq (N := 0) (by simpa using hN) hD (Nat.two_pow_pos _) hDpos hDb]
+  have : umag (F64.ofInt ((0 : Nat) : Int)) = 0 := by decide
+  rw [this, DecFloat.magBits_zero]; rfl
+
+/-- **exact when numerator and denominator fit 53 bits and the quotient is a REAL** `y`: the cell is `y` -/
+theorem intVariance_exact {n S Q : Int} {N D : Nat} (hN : n * Q - S * S = (N : Int)) (hD : n * n = (D : Int))
+    (hNb : N < 2 ^ 53) (hDpos : 0 < D) (hDb : D < 2 ^ 53) (y : Nat) (hy : isFinite y = true)
+    (hq : umag y * D = N * unitScale) : intVariance n S Q = mag y := by
+  rw [intVariance_eq hN hD (by omega) hDpos (by omega), ofInt_nat_exact hNb, ofInt_nat_exact hDb]
+  apply DecFloat.magBits_exact _ _ y (Nat.mul_pos hDpos unitScale_pos) hy
+  have hU : DecFloat.unitScale = unitScale := rfl
+  rw [hU]
+  generalize unitScale = U at *
+  rw [← Nat.mul_assoc, hq]
+
+/-- **numerator and denominator of a group of INT values**, as the natural numbers the conversions see: for a non-empty list
+of fewer than `2^63` values (the code counts in an `i64`) whose squares are `i64`s (otherwise the code reports an overflow),
+`N = n·Σx² − (Σx)²` is a natural number, `D = n²` is positive, both are far below `2^1023`, and `N / D` is EXACTLY the
+textbook population variance -/
+theorem intVariance_parts (is : List Int) (hne : is ≠ []) (hcount : is.length < 2 ^ 63)
+    (hsq : (is.map (fun x => x * x)).all inI64 = true) :
+    ∃ N D : Nat, (N : Int) = varNumer is ∧ D = is.length * is.length ∧ 0 < D ∧ N < 2 ^ 1023 ∧ D < 2 ^ 1023 ∧
+      (is.length : Int) * intSum (is.map (fun x => x * x)) - intSum is * intSum is = (N : Int) ∧
+      (is.length : Int) * (is.length : Int) = (D : Int) ∧
+      popVariance (is.map (fun (i : Int) => (i : Rat))) = (N : Rat) / (D : Rat) := by
+  have hnn := varNumer_nonneg is
+  have hlen : 0 < is.length := List.length_pos_iff.mpr hne
+  refine ⟨(varNumer is).toNat, is.length * is.length, by omega, rfl, Nat.mul_pos hlen hlen, ?_, ?_, ?_, by push_cast; rfl, ?_⟩
+  · -- N ≤ n·Σx² ≤ n·(n·2^63) ≤ 2^189
+    have hQ := sum_le_of_all_inI64 _ hsq
+    simp only [List.length_map] at hQ
+    have hS : 0 ≤ is.sum * is.sum := by
+      rcases Int.le_total 0 is.sum with h | h
+      · exact Int.mul_nonneg h h
+      · exact Int.mul_nonneg_of_nonpos_of_nonpos h h
+    have h1 : varNumer is ≤ (is.length : Int) * ((is.length : Int) * 9223372036854775808) := by
+      unfold varNumer
+      have := Int.mul_le_mul_of_nonneg_left hQ (Int.natCast_nonneg is.length)
+      omega
+    have h2 : (varNumer is).toNat ≤ is.length * (is.length * 9223372036854775808) := by
+      apply Int.toNat_le.mpr
+      rw [Int.natCast_mul, Int.natCast_mul]
+      exact h1
+    have hK : (9223372036854775808 : Nat) = 2 ^ 63 := by decide
+    rw [hK] at h2
+    have h3 : is.length * (is.length * 2 ^ 63) ≤ 2 ^ 63 * (2 ^ 63 * 2 ^ 63) :=
+      Nat.mul_le_mul (Nat.le_of_lt hcount) (Nat.mul_le_mul (Nat.le_of_lt hcount) (Nat.le_refl _))
+    have h4 : (2 : Nat) ^ 63 * (2 ^ 63 * 2 ^ 63) = 2 ^ 189 := by decide +kernel
+    have h5 : (2 : Nat) ^ 189 < 2 ^ 1023 := Nat.pow_lt_pow_right (by decide) (by decide)
+    omega
+  · have h3 : is.length * is.length ≤ 2 ^ 63 * 2 ^ 63 := Nat.mul_le_mul (Nat.le_of_lt hcount) (Nat.le_of_lt hcount)
+    have h4 : (2 : Nat) ^ 63 * 2 ^ 63 = 2 ^ 126 := by decide +kernel
+    have h5 : (2 : Nat) ^ 126 < 2 ^ 1023 := Nat.pow_lt_pow_right (by decide) (by decide)
+    omega
+  · rw [intSum_eq_sum, intSum_eq_sum]
+    unfold varNumer at hnn ⊢
+    omega
+  · rw [popVariance_ints is hne]
+    have : (((varNumer is).toNat : Nat) : Rat) = ((varNumer is : Int) : Rat) := by
+      have : (((varNumer is).toNat : Nat) : Int) = varNumer is := by omega
+      exact_mod_cast congrArg (fun z : Int => (z : Rat)) this
+    rw [this]; push_cast; rfl
+
+/-- the exactness corollary with the hypothesis in rational form: if the textbook variance `N / D` is the exact value of a finite
+non-negative REAL `y` and `N`, `D` fit 53 bits, the cell is `y` -/
+theorem intVariance_exact_rat {n S Q : Int} {N D : Nat} (hN : n * Q - S * S = (N : Int)) (hD : n * n = (D : Int))
+    (hNb : N < 2 ^ 53) (hDpos : 0 < D) (hDb : D < 2 ^ 53) (y : Nat) (hy : isFinite y = true) (hs : signBit y = false)
+    (hylt : y < 2 ^ 64) (hq : toRat y = (N : Rat) / (D : Rat)) : intVariance n S Q = y := by
+  have hmag : mag y = y := by
+    unfold signBit at hs; unfold mag; simp at hs; omega
+  rw [← hmag]
+  apply intVariance_exact hN hD hNb hDpos hDb y hy
+  unfold toRat units at hq
+  rw [hs] at hq
+  simp only [Bool.false_eq_true, if_false] at hq
+  have hU : (unitScale : Rat) ≠ 0 := by
+    have := unitScale_pos
+    have : unitScale ≠ 0 := by omega
+    exact_mod_cast this
+  have hDr : (D : Rat) ≠ 0 := by
+    have : D ≠ 0 := by omega
+    exact_mod_cast this
+  have hcast : ((umag y : Int) : Rat) = ((umag y : Nat) : Rat) := by push_cast; rfl
+  rw [hcast] at hq
+  have : ((umag y : Nat) : Rat) * (D : Rat) = (N : Rat) * (unitScale : Rat) := by grind
+  exact_mod_cast this
+
+/-! ### the clamp of the REAL branch -/
+
+/-- the clamped value is never below zero (IEEE `<`: NaN and `-0.0` are not below zero) -/
+theorem clampNegative_not_lt (v : Nat) : F64.cmp (clampNegative v) F64.zero ≠ .lt := by
+  unfold clampNegative
+  by_cases h : F64.cmp v F64.zero = .lt
+  · simp only [h, beq_self_eq_true, if_true]; decide
+  · have : (F64.cmp v F64.zero == Ordering.lt) = false := by
+      cases hc : F64.cmp v F64.zero <;> simp_all
+    simp only [this, Bool.false_eq_true, if_false]; exact h
+
+/-- a value that is not below zero is left alone -/
+theorem clampNegative_of_not_lt {v : Nat} (h : F64.cmp v F64.zero ≠ .lt) : clampNegative v = v := by
+  unfold clampNegative
+  have : (F64.cmp v F64.zero == Ordering.lt) = false := by
+    cases hc : F64.cmp v F64.zero <;> simp_all
+  simp only [this, Bool.false_eq_true, if_false]
+
+/-- a value below zero becomes `0.0` -/
+theorem clampNegative_of_lt {v : Nat} (h : F64.cmp v F64.zero = .lt) : clampNegative v = F64.zero := by
+  unfold clampNegative; simp only [h, beq_self_eq_true, if_true]
+
+/-- "below zero" spelled out: not NaN, sign bit set, not a zero -/
+theorem cmp_zero_lt_iff (v : Nat) : F64.cmp v F64.zero = .lt ↔ (F64.isNaN v = false ∧ F64.signBit v = true ∧ F64.mag v ≠ 0) := by
+  have hz : F64.isNaN F64.zero = false := by decide
+  have hk : F64.key F64.zero = 0 := by decide
+  unfold F64.cmp
+  rw [hz, hk]
+  cases hn : F64.isNaN v
+  · simp only [Bool.false_eq_true, if_false, true_and]
+    unfold F64.key
+    cases hs : F64.signBit v
+    · simp only [Bool.false_eq_true, if_false, false_and, iff_false]
+      rw [Int.compare_eq_lt]; omega
+    · simp only [if_true, true_and]
+      rw [Int.compare_eq_lt]; omega
+  · simp
+
+/-- a finite REAL whose exact value is not negative is not below zero -/
+theorem not_lt_of_toRat_nonneg {v : Nat} (_hf : isFinite v = true) (h : 0 ≤ toRat v) : F64.cmp v F64.zero ≠ .lt := by
+  intro hc
+  obtain ⟨_, hs, hm⟩ := (cmp_zero_lt_iff v).1 hc
+  have hu : 0 < umag v := by
+    have := mt (umag_eq_zero_iff v).1 hm; omega
+  have hneg : toRat v < 0 := by
+    unfold toRat units
+    rw [hs]; simp only [if_true]
+    have hU : (0 : Rat) < (unitScale : Rat) := Rat.natCast_pos.mpr unitScale_pos
+    have hum : (0 : Rat) < (umag v : Rat) := Rat.natCast_pos.mpr hu
+    rw [Rat.div_def]
+    have hinv := Rat.inv_pos.mpr hU
+    have : ((-(umag v : Int) : Int) : Rat) = -((umag v : Nat) : Rat) := by push_cast; rfl
+    rw [this]
+    have := Rat.mul_pos hum hinv
+    grind
+  exact absurd h (Rat.not_le.mpr hneg)
+
+/-- **(iii) for REAL inputs, with the clamp**: where neither the running sums nor the formula round, the clamp does nothing and
+the REAL shown for VARIANCE is exactly the textbook variance of the exact values of the inputs -/
+theorem realVariance_exact_value (rs : List Nat) (hne : rs ≠ []) (h : onePassExactReals rs = true) :
+    IsExactly (realVariance rs.length (realSum rs) (realSum (rs.map (fun x => F64.mul x x))))
+      (popVariance (rs.map toRat)) := by
+  have hx := onePass_exact_value_reals rs hne h
+  unfold realVariance
+  rw [clampNegative_of_not_lt (not_lt_of_toRat_nonneg hx.1 (by rw [hx.2]; exact popVariance_nonneg _))]
+  exact hx
 
 /-! ### (iii) each step on its own is correctly rounded -/
 
